@@ -388,6 +388,10 @@ def replay(ctx, rep, case):
         elif any(dt > 5000 * (ref or 1e-3) for dt in times.values()):
             rep.violate('parse-time-superpolynomial', 'still far above the reference parse', case)
         return
+    if case.get('stream') == 'watchdog':
+        print('  task :', case.get('task'), ' payload', str(case.get('payload'))[:300])
+        print('  (a whole task overran its deadline; it carries no literal scripts to replay one by one)')
+        return
     s = case['text']
     print('  text :', repr(s))
     oracle_texts([s], rep, 'replay',
